@@ -18,7 +18,7 @@ from vlib import sqlo
 
 PROP = 'C13'
 META = {
-    'extractors': ['graph'],
+    'extractors': ['graph', 'pyjoins'],
     'technique': ('Lean 4 proof (stable insertion sort: permutation + lexicographic sortedness + stability for every key list; '
                   'multiset symmetry of the two sides of a link table; add/remove/accessor algebra) + differential correspondence on histories'),
     'level_text': ('Theorems C13_*: for every stored relation (hence after every history) the one-to-many accessors return exactly '
